@@ -130,7 +130,9 @@ def search(res, tier, boost=False):
                     if ex != base:
                         res.violation('C12:exchange-not-bitwise', dict(curve=cname, pw_exact=pw, test=describe(te), trial=describe(tr), base=float(base), exchanged=float(ex)))
                 # dyadic time shift: bit for bit
-                for d in (0.25, 1.0, 3.0):
+                for d in (0.25, 1.0, 3.0, 128.0, 131072.0):     # (late times: slabs that are short against their position on the axis)
+                    if any((t + d) - d != t for t in tuple(te.time_interval) + tuple(tr.time_interval)):
+                        continue          # the shifted end points are not representable: no bit-for-bit claim
                     te3 = Stub((te.time_interval[0] + d, te.time_interval[1] + d), te.space_interval, te.gamma_space)
                     tr3 = Stub((tr.time_interval[0] + d, tr.time_interval[1] + d), tr.space_interval, tr.gamma_space)
                     sh = SL.bilform(tr3, te3)
